@@ -3,9 +3,9 @@ package main
 import (
 	"fmt"
 	"os"
-	"strconv"
+	"path/filepath"
 	"runtime"
-	"sort"
+	"strconv"
 	"strings"
 	"sync"
 
@@ -66,7 +66,7 @@ func runCheck(r *mon.Run) {
 	r.SetLevel("fault_enumeration")
 	r.SetRule("case = one stream history (scripted real HttpServer stream, client call script, fault plan round-trip-index -> fault) driven through the real HttpClient; " +
 		"exhaustive sub-space = every short shape (X1-X4 exchange, P1-P6 producer) x every round-trip position of its fault-free run x every fault of the catalogue " +
-		"(thorough: every variant of every kind, a cut at every byte offset and a flip at every second flip-safe offset at every position; quick: the full variant product at three dense positions - an exchange turn, a producer continuation, an init with header stream - " +
+		"(thorough: every variant of every kind at every position, a cut at every byte offset of the three dense positions and at every third offset plus every message boundary -1/0/+1/+8 elsewhere, a flip at every fourth flip-safe offset; quick: the full variant product at three dense positions - an exchange turn, a producer continuation, an init with header stream - " +
 		"and one variant per kind, rotated, plus cuts at and just before every message boundary at every other position) " +
 		"in the in-process transport, plus every wire-level fault (connection closed before/after the server ran with zero response bytes, cut after k raw bytes, EOF-delimited cut, chunked) " +
 		"x every position on a real listener with keep-alive connections; random longer multi-fault histories are counted separately (coverage.random_*); " +
@@ -108,6 +108,13 @@ func runCheck(r *mon.Run) {
 		rec := e.runHistory(&h)
 		v := judge(&h, rec)
 		a.merge(space, v)
+		for k, n := range v.Classes {
+			if !strings.Contains(k, "@") {
+				for i := 0; i < n; i++ {
+					r.Class(k)
+				}
+			}
+		}
 		r.Case(v.Sig)
 		for _, f := range v.Findings {
 			r.Violation(f.Sig, f.What, witnessOf(&h, rec, f))
@@ -223,8 +230,10 @@ func runCheck(r *mon.Run) {
 			// cuts
 			var ks []int
 			switch {
-			case r.Thorough():
+			case r.Thorough() && dense[fmt.Sprintf("%s:%d", sh.Shape, p)]:
 				ks = positionsFor(ti.Len, ti.Bounds, true, 0)
+			case r.Thorough():
+				ks = positionsFor(ti.Len, ti.Bounds, false, 3)
 			case full:
 				ks = positionsFor(ti.Len, ti.Bounds, false, 0)
 			default:
@@ -244,13 +253,13 @@ func runCheck(r *mon.Run) {
 			switch {
 			case r.Thorough():
 				for k := 0; k < ti.Safe; k++ {
-					if k%2 == 0 {
+					if k%4 == 0 {
 						flips++
 						add(0, Fault{Kind: "flip", Var: "all", K: k})
 					}
-					if k%5 == 0 {
+					if k%10 == 1 {
 						flips++
-						add(0, Fault{Kind: "flip", Var: []string{"bit0", "bit7"}[(k/5)%2], K: k})
+						add(0, Fault{Kind: "flip", Var: []string{"bit0", "bit7"}[(k/10)%2], K: k})
 					}
 				}
 			case full:
@@ -312,8 +321,8 @@ func runCheck(r *mon.Run) {
 	r.SetExhaustive(true)
 
 	// ---- random longer histories (reported separately)
-	nRand := r.N(300, 20000)
-	nRandLis := r.N(60, 2000)
+	nRand := r.N(300, 12000)
+	nRandLis := r.N(60, 1500)
 	space = nil
 	for i := 0; i < nRand+nRandLis; i++ {
 		rng := r.Rand(uint64(i))
@@ -326,17 +335,6 @@ func runCheck(r *mon.Run) {
 	runAll("random", space)
 
 	// ---- evidence
-	for k, n := range a.classes {
-		for i := 0; i < 1; i++ {
-			_ = i
-		}
-		r.Count("class."+k, int64(n))
-		if !strings.Contains(k, "@") {
-			for j := 0; j < n && j < 1; j++ {
-				r.Class(k)
-			}
-		}
-	}
 	for k, n := range a.counters {
 		r.Count(k, int64(n))
 	}
@@ -346,11 +344,6 @@ func runCheck(r *mon.Run) {
 			perFault[strings.TrimPrefix(k, "fault.")] = n
 		}
 	}
-	keys := make([]string, 0, len(perFault))
-	for k := range perFault {
-		keys = append(keys, k)
-	}
-	sort.Strings(keys)
 	r.Set("fault_class_at_op_hits", perFault)
 	r.Set("exhaustive_inproc_histories", nIn)
 	r.Set("exhaustive_listener_histories", nLis)
@@ -363,4 +356,16 @@ func runCheck(r *mon.Run) {
 	r.Set("histories_by_space", a.bySpace)
 	r.Set("short_shapes", len(shapes))
 	r.Set("workers", workers)
+	// Data-race reports of this -race build (GORACE log_path set by the driver).
+	// One HttpClient per history and one goroutine per stream: none is expected.
+	races := 0
+	if base := os.Getenv("VERIF_RACE_LOG"); base != "" {
+		if m, err := filepath.Glob(base + ".*"); err == nil {
+			races = len(m)
+		}
+	}
+	r.Set("race_reports", races)
+	if races > 0 {
+		fmt.Printf("  note: %d data-race report file(s) next to %s\n", races, os.Getenv("VERIF_RACE_LOG"))
+	}
 }
